@@ -43,7 +43,7 @@ let std_fds = [ (z 0, fdent (OExt (z 100, ARd))); (z 1, fdent (OExt (z 101, AWr)
 let prog path script = (s path, FExec script)
 let dir path = (s path, FDir)
 
-let base_fs = [ dir "/"; dir "/bin"; dir "/usr/bin"; dir "/w"; dir "/w/parent"; dir "/w/child"; dir "/tmp" ]
+let base_fs = [ dir "/"; dir "/bin"; dir "/usr/bin"; dir "/w"; dir "/w/parent"; dir "/w/child"; dir "/w/parent/sub"; dir "/tmp" ]
 
 let mk_world ?(time0 = 1000123) ?(subns = 999999) ?(main = 70001) ?(fds = std_fds) ?(mask = [])
     ?(disp = []) ?(cwd = "/w/parent") ?(env = [ "PATH=/bin"; "HOME=/w" ]) ?(rlimit = 24)
